@@ -48,7 +48,7 @@ def generate(rng, tier, index):
     n_nodes = rng.choice([3, 4, 6, 8, 10]) if tier == "quick" else rng.choice([3, 4, 6, 8, 10, 16, 24])
     triples = gen.gen_graph(rng, n_nodes=n_nodes, n_classes=rng.randint(1, 3), n_props=rng.randint(2, 6),
                             bnodes=rng.random() < 0.25, prop_namespaces=tuple(rng.sample(NS_POOL, rng.randint(1, 4))),
-                            density=rng.choice([0.5, 0.8]))
+                            density=rng.choice([0.5, 0.8]), kinds=("node", "str", "int", "lang", "date", "iri", "iri2"))
     tp = gen.CUSTOM_TYPE if rng.random() < 0.12 else gen.RDF_TYPE
     triples = gen.retype(gen.ensure_class(triples), tp)
     classes = gen.classes_of(triples, tp)
